@@ -703,7 +703,7 @@ func TestReplay(t *testing.T) {
 				if c.Td.Gapa || c.Wh.Data.Gapa {
 					res.Count("batches_in_emptyann_class", 1)
 				}
-				if seenB < 2 {
+				if seenB < 2 && nontrivialBatch(&c) && c.Wh.Dropped > 0 {
 					seenB++
 					res.Sample(raw)
 				}
